@@ -28,8 +28,11 @@ def py2card(c):
     return [-7, -7]      # not a pair at all: falsifies CardNF
 
 
-def conc_input(x):
+def conc_input(x, current=None):
     t = x["t"]
+    if t == "samefloat":
+        c = current if current not in (None, [N, N]) else [1, 2]
+        return tuple(None if b == N else float(b) for b in c)
     if t == "none":
         return None
     if t == "int":
@@ -80,6 +83,27 @@ def observe(obj, kind, reused=None, sibs=True):
     rw = warn
     if reused is not None and warn in (True, False):
         rw = r
+    # a private validation carrying nothing but the rule of this kind, started two levels above the object
+    if warn in (True, False) and obj.parent is None:
+        try:
+            from odml import validation as V
+            rule = {"values": ("property", V.property_values_cardinality), "properties": ("section", V.section_properties_cardinality),
+                    "sections": ("section", V.section_sections_cardinality)}[kind]
+            doc = odml.Document()
+            mid = odml.Section(name="mid", type="t", parent=doc)
+            low = odml.Section(name="low", type="t", parent=mid)
+            low.append(obj)
+            try:
+                pv = Validation(doc, validate=False, reset=True)
+                pv.register_custom_handler(rule[0], rule[1])
+                pv.run_validation()
+                hit = any(e.obj is obj and e.validation_id == ISSUE[kind] for e in pv.errors)
+            finally:
+                low.remove(obj)
+            if hit != warn and rw == warn:
+                rw = hit
+        except Exception as e:
+            rw = "raised:" + type(e).__name__
     return {"card": py2card(getattr(obj, ATTR[kind])), "count": count_of(obj, kind), "warn": warn, "rwarn": rw, "sibs": sibs}
 
 
@@ -117,7 +141,7 @@ def replay(t):
         if n in ("add", "remove", "set", "setminmax"):
             reused = Validation(obj)
         if n == "set":
-            setattr(obj, ATTR[kind], conc_input(op["x"]))
+            setattr(obj, ATTR[kind], conc_input(op["x"], s["card"]))
         elif n == "setminmax":
             getattr(obj, SETTER[kind])(b2py(op["x"]["a"]), b2py(op["x"]["b"]))
         elif n == "add":
